@@ -223,12 +223,15 @@ def _classes(lst):
     return [type(m).__name__ for m in lst]
 
 
-def passes_check(mvals):
-    """mvals: concrete or symbolic flags for all mutators."""
+def passes_check(mvals, gmode=0):
+    """mvals: concrete or symbolic flags for all mutators; gmode: the group
+    options are all unset (0), all False (1: --disable-all / --no-<group>
+    followed by individual options) or all True (2) - the pass lists depend
+    on the individual flags only."""
     from ddsmt import options, strategy_hierarchical, strategy_ddmin
     c = ctx()
-    ns = _namespace(mvals, [True] * len(c['gattrs']),
-                    [True] * len(c['gattrs']))
+    ns = _namespace(mvals, [gmode == 0] * len(c['gattrs']),
+                    [gmode == 2] * len(c['gattrs']))
     setattr(options, '__PARSED_ARGS', ns)
     enabled = {cls for (cls, _, _, _), v in zip(c['names'], mvals) if v}
     hp = strategy_hierarchical.get_passes()
@@ -257,12 +260,13 @@ def passes_check(mvals):
 
 
 def make_passes(lo, hi):
-    def h(mi: int, b0: bool, b1: bool):
+    def h(mi: int, b0: bool, b1: bool, gmode: int):
         c = ctx()
         assume(lo <= mi < hi)
+        assume(0 <= gmode <= 2)
         mvals = [b0] * len(c['names'])
         mvals[mi] = b1
-        r = passes_check(mvals)
+        r = passes_check(mvals, gmode)
         if r:
             raise Violation(r)
     return h
@@ -339,7 +343,10 @@ def detect_check(present, variant, mvals, gnone, gvals, traced=True):
     ns = _namespace(mvals, gnone, gvals)
     setattr(options, '__PARSED_ARGS', ns)
     before = dict(vars(ns))
-    text = NEUTRAL[0] + NEUTRAL[1]
+    # declarations may follow assertions (incremental scripts): every other
+    # pattern places them behind the first assert
+    late = (sum(1 << k for k, p in enumerate(present) if p) + variant) % 2
+    text = NEUTRAL[0] + NEUTRAL[1] + (NEUTRAL[2] if late else '')
     theories = list(THEORY_DECLS)
     for t, p in zip(theories, present):
         if p:
@@ -685,7 +692,7 @@ def replay(part, cex):
         if part.startswith('passes'):
             mv = [cex['b0']] * len(c['names'])
             mv[cex['mi']] = cex['b1']
-            return passes_check(mv)
+            return passes_check(mv, cex.get('gmode', 0))
         if part.startswith('detect'):
             v = int(part.split('_')[1])
             present, gnone = _detect_case(cex['pi'], cex['si'])
